@@ -107,6 +107,8 @@ class Model:
         self._calls_end: dict[str, dict[tuple[int, int, int, int], list]] = {}
         self._types: dict[str, dict[tuple[int, int, int, int], str]] = {}
         self._func_of_node: dict[int, FuncInfo] = {}
+        self._methods_by_name: dict[str, list[str]] | None = None
+        self.name_resolved = 0
         if need_types:
             self.load_types()
 
@@ -262,10 +264,23 @@ class Model:
                 return r
         return recs[0]
 
-    def callees(self, mod: ModuleInfo, call: ast.Call) -> list[str]:
+    def callees(self, mod: ModuleInfo, call: ast.Call, by_name: bool = True) -> list[str]:
         r = self.call_record(mod, call)
         if r is None:
             return []
+        if by_name and r[5] in ('any', 'untyped') and isinstance(call.func, ast.Attribute):
+            # receiver typed Any: resolve by method name over all classes of the model (flagged name-resolved)
+            nm = call.func.attr
+            if self._methods_by_name is None:
+                idx: dict[str, list[str]] = {}
+                for ci in self.classes.values():
+                    for mname, f in ci.methods.items():
+                        idx.setdefault(mname, []).append(f.qualname)
+                self._methods_by_name = idx
+            found = self._methods_by_name.get(nm, [])
+            if 0 < len(found) <= 6:
+                self.name_resolved += 1
+                return list(found)
         return list(r[4])
 
     def receivers(self, mod: ModuleInfo, call: ast.Call) -> list[str]:
